@@ -543,11 +543,33 @@ extern "C" {
     fn setrlimit(resource: i32, rlim: *const [u64; 2]) -> i32;
 }
 
+const HARD_ADDRESS_SPACE_MIB: u64 = 16 * 1024;
+
+/// Run `f` with the soft address-space limit raised to `mib` MiB (at most 16 GiB), then put the
+/// check's own limit back: for the rare scenario whose INPUT is legitimately larger than the
+/// budget (a slice of more than 4 GiB, lazily zero-mapped). No effect without a limit.
+pub fn with_address_space<T>(check_limit_mib: Option<u64>, mib: u64, f: impl FnOnce() -> T) -> T {
+    const RLIMIT_AS: i32 = 9;
+    let Some(own) = check_limit_mib else { return f() };
+    let raised = [mib.min(HARD_ADDRESS_SPACE_MIB) << 20, HARD_ADDRESS_SPACE_MIB << 20];
+    // SAFETY: plain libc call, see apply_address_space_limit
+    if unsafe { setrlimit(RLIMIT_AS, &raised) } != 0 {
+        harness_error("setrlimit(RLIMIT_AS) failed while raising the soft limit");
+    }
+    let out = f();
+    let back = [own << 20, HARD_ADDRESS_SPACE_MIB << 20];
+    if unsafe { setrlimit(RLIMIT_AS, &back) } != 0 {
+        harness_error("setrlimit(RLIMIT_AS) failed while restoring the soft limit");
+    }
+    out
+}
+
 /// Apply the check's address-space limit to this process (see `Check::address_space_limit_mib`).
 fn apply_address_space_limit(check: &dyn Check) {
     if let Some(mib) = check.address_space_limit_mib() {
         const RLIMIT_AS: i32 = 9; // Linux
-        let lim = [mib << 20, mib << 20];
+        // soft limit = the check's budget; the hard limit leaves room for `with_address_space`
+        let lim = [mib << 20, HARD_ADDRESS_SPACE_MIB << 20];
         // SAFETY: plain libc call with a pointer to two u64 (struct rlimit on 64-bit Linux)
         if unsafe { setrlimit(RLIMIT_AS, &lim) } != 0 {
             eprintln!("harness error: setrlimit(RLIMIT_AS) failed");
